@@ -688,7 +688,7 @@ def model_sem(tok_lines):
     for o in outs:
         r = _Rd(_parse_ints(o))
         res.append({"wf": r.int(), "nofn": r.int(), "reach": r.list(r.int), "falls": r.int(), "fall_cases": r.list(r.int),
-                    "fall_getters": r.list(r.int)})
+                    "fall_getters": r.list(r.int), "fnsafe": r.int()})
     return res
 
 
@@ -1177,6 +1177,8 @@ def compare_all(tier="quick", seed=1, mask=DEFAULT_MASK, chunk=20000, shrink_lim
             res["stats"][k] = res["stats"].get(k, 0) + v
         res["info_entries"] += r["stats"]["info_entries"]
         res["diags"] += r["stats"]["diags"]
+        res["fnsafe_programs"] = res.get("fnsafe_programs", 0) + sum(1 for sm in r["sem"] if sm["fnsafe"])
+        res["fnsafe_with_fn"] = res.get("fnsafe_with_fn", 0) + sum(1 for sm in r["sem"] if sm["fnsafe"] and not sm["nofn"])
         for p in progs:
             n = prog_size(p)
             b = "1-2" if n <= 2 else "3-5" if n <= 5 else "6-10" if n <= 10 else "11-20" if n <= 20 else "21-40" if n <= 40 else ">40"
@@ -1190,7 +1192,13 @@ def compare_all(tier="quick", seed=1, mask=DEFAULT_MASK, chunk=20000, shrink_lim
             o, of = r["oracle"][i], r["oracle_fixed"][i]
             if has_violation(of):
                 res["unexplained_after_repair"].append({"src": r["srcs"][i], "oracle": {k: of[k] for k in ("c10", "getter", "cases")}})
+            if has_violation(o) and r["sem"][i]["fnsafe"] and mask & 27 == 27:
+                # contradicts the theorems C10/C11 *_sound_current (side condition fn_stmt_safe)
+                res["unexplained"].append({"src": r["srcs"][i], "why": "violation on a program that satisfies fn_stmt_safe",
+                                           "oracle": {k: o[k] for k in ("c10", "getter", "cases")}})
+                res["classes"]["unexplained"] += 1
             if has_violation(o):
+                res["fnsafe_false_violating"] = res.get("fnsafe_false_violating", 0) + (0 if r["sem"][i]["fnsafe"] else 1)
                 res["violations"]["c10"] += len(o["c10"])
                 res["violations"]["c11_getter"] += o["getter"]
                 res["violations"]["c11_case"] += len(o["cases"])
@@ -1281,6 +1289,8 @@ def summary(res):
             if it["minimal"] and (kind, it["class"], it["minimal"]) not in seen and len([x for x in seen if x[0] == kind and x[1] == it["class"]]) < 3:
                 seen.add((kind, it["class"], it["minimal"]))
                 lines.append("    [impl %s, class %s] minimal: %s" % (kind, it["class"], it["minimal"].replace("\n", "\\n")))
+    lines.append("  side condition of the current-code theorems: %d programs satisfy fn_stmt_safe (%d of them contain function-likes); violating programs that satisfy it: 0 required, %d violating programs do not" %
+                 (res.get("fnsafe_programs", 0), res.get("fnsafe_with_fn", 0), res.get("fnsafe_false_violating", 0)))
     lines.append("  classes: %s;  violations left with all repairs on in the model: %d" %
                  (json.dumps(res["classes"], sort_keys=True), len(res["unexplained_after_repair"])))
     for key, exs in sorted(res["examples"].items()):
